@@ -39,6 +39,8 @@ abbrev runAll := MsiProofs.Lifecycle.runAll
 def createTable_full := @MsiProofs.CreateTable.createTable_full
 /-- an accepted `drop_table` keeps every invariant and removes the definition from the catalog -/
 def dropTable_full := @MsiProofs.DropTable.dropTable_full
+/-- stream calls, signature removal, summary setters and the code-page setter keep every invariant -/
+def full_transfer := @MsiProofs.OtherCalls.full_transfer
 /-- the state `Package::create` builds satisfies every invariant -/
 def created_full := @MsiProofs.Created.created_full
 /-- a successful save keeps every invariant -/
